@@ -163,7 +163,8 @@ class SimpleTable:
         if key in self.table:
             return self.table[key]
         if self.salt:
-            return refimpl.fnv1a_64(to_bytes(key) + self.salt, seed) & ((1 << self.bits) - 1)
+            tag = b"|b" if isinstance(key, (bytes, bytearray, memoryview)) else b"|s"  # also tells text from bytes of the same spelling
+            return refimpl.fnv1a_64(to_bytes(key) + self.salt + tag, seed) & ((1 << self.bits) - 1)
         if self.bits == 32:
             return refimpl.fnv1a_32(to_bytes(key), seed)
         return refimpl.fnv1a_64(to_bytes(key), seed)
